@@ -13,6 +13,8 @@ import os
 import shutil
 import subprocess
 import sys
+
+os.environ.setdefault("VERIF_EVIDENCE_DIR", "/dev/shm/vf_evidence_of_broken_trees")
 import tempfile
 
 HERE = os.path.dirname(os.path.dirname(os.path.abspath(__file__)))
